@@ -560,6 +560,81 @@ impl Model for EST {
     }
 }
 
+/// sorted constructors whose names differ in letter case at the deciding position: name order is
+/// plain string order ("URL" < "Uri" because 'R' < 'r'), so URL = 0, Uri = 1
+#[derive(BinaryCodec)]
+#[sorted_constructors]
+pub enum ESC {
+    Uri(u8),
+    URL(u16),
+}
+
+impl Model for ESC {
+    fn arb(sh: &mut Shape) -> Self {
+        if sh.choice(2) == 0 {
+            ESC::Uri(u8::arb(sh))
+        } else {
+            ESC::URL(u16::arb(sh))
+        }
+    }
+    fn enc(&self, b: &mut Buf) {
+        match self {
+            ESC::URL(v) => {
+                enc_ctor(b, 0);
+                v.enc(b);
+            }
+            ESC::Uri(v) => {
+                enc_ctor(b, 1);
+                v.enc(b);
+            }
+        }
+    }
+    fn dec(r: &mut Rd) -> Option<Self> {
+        let idx = dec_ctor(r)?;
+        if idx == 0 {
+            dec_v0(r)?;
+            Some(ESC::URL(u16::dec(r)?))
+        } else if idx == 1 {
+            dec_v0(r)?;
+            Some(ESC::Uri(u8::dec(r)?))
+        } else {
+            None
+        }
+    }
+    fn same(&self, o: &Self) -> bool {
+        match (self, o) {
+            (ESC::URL(a), ESC::URL(b)) => a == b,
+            (ESC::Uri(a), ESC::Uri(b)) => a == b,
+            _ => false,
+        }
+    }
+}
+
+/// a record whose last field is optional (truncation right before its tag must be noticed)
+#[derive(BinaryCodec)]
+pub struct TailOpt {
+    pub a: u8,
+    pub b: Option<u8>,
+}
+
+impl Model for TailOpt {
+    fn arb(sh: &mut Shape) -> Self {
+        TailOpt { a: u8::arb(sh), b: Model::arb(sh) }
+    }
+    fn enc(&self, b: &mut Buf) {
+        b.u8(0);
+        self.a.enc(b);
+        self.b.enc(b);
+    }
+    fn dec(r: &mut Rd) -> Option<Self> {
+        dec_v0(r)?;
+        Some(TailOpt { a: u8::dec(r)?, b: Model::dec(r)? })
+    }
+    fn same(&self, o: &Self) -> bool {
+        self.a == o.a && self.b.same(&o.b)
+    }
+}
+
 /// ES with a new constructor that sorts last (C13 extension under sorted order)
 #[derive(BinaryCodec)]
 #[sorted_constructors]
@@ -763,6 +838,37 @@ pub struct V7 {
     pub a: u8,
     #[transient(3u8)]
     pub t: u8,
+}
+
+/// history: {a, b}; FieldAdded("x", 0); FieldMadeOptional("b") - the added field is declared (and
+/// therefore written) BEFORE the chunk-0 fields: positions must count within chunk 0 only
+#[derive(BinaryCodec)]
+#[evolution(FieldAdded("x", 0u8), FieldMadeOptional("b"))]
+pub struct V8 {
+    pub x: u8,
+    pub a: u8,
+    pub b: Option<u8>,
+}
+
+impl Model for V8 {
+    fn arb(sh: &mut Shape) -> Self {
+        V8 { x: u8::arb(sh), a: u8::arb(sh), b: Model::arb(sh) }
+    }
+    fn enc(&self, b: &mut Buf) {
+        b.u8(2);
+        hdr_chunk(b, if self.b.is_some() { 3 } else { 2 });
+        hdr_chunk(b, 1);
+        hdr_made_optional(b, 0, 1); // b is the second field of chunk 0
+        self.a.enc(b);
+        self.b.enc(b);
+        self.x.enc(b);
+    }
+    fn dec(_r: &mut Rd) -> Option<Self> {
+        None
+    }
+    fn same(&self, o: &Self) -> bool {
+        self.x == o.x && self.a == o.a && self.b.same(&o.b)
+    }
 }
 
 /// two added fields in two generations, written out of generation order in the declaration
